@@ -81,6 +81,8 @@ def spaces(tier):
         out.append(cs.db_space(3, combo, 1))
         if tier == 'thorough':
             out.append(cs.db_space(5, combo, 1))
+    for combo in cs.LONGSTEP:
+        out.append(cs.db_space(3 if tier == 'quick' else 4, combo, 1))
     return out
 
 
